@@ -65,6 +65,10 @@ type Behaviour struct {
 	Family string    `json:"family"`
 	Settle bool      `json:"settle"`
 	Probe  bool      `json:"probe"` // append the attack suffix (forged data under every owned handshake)
+	// NoneSig: how the symbolic term "none" (a signature field that proves nothing) is concretised in this
+	// behaviour: "" / "rand" = 64 random bytes, "empty" = absent field, "zero" = 64 zero bytes, "short" = 1 byte,
+	// "long" = 65 random bytes. Every shape is "not a proof" for the ground truth.
+	NoneSig string `json:"nonesig"`
 	Sess   []SessDef `json:"sess"`
 	Hist   []Act     `json:"hist"`
 	Msgs   []Term    `json:"msgs"`
@@ -308,6 +312,21 @@ func (r *run) garbage(n int) []byte {
 	return b
 }
 
+// badSig is the concretisation of the signature term "none" chosen for this behaviour.
+func (r *run) badSig() []byte {
+	switch r.b.NoneSig {
+	case "empty":
+		return nil
+	case "zero":
+		return make([]byte, 64)
+	case "short":
+		return r.garbage(1)
+	case "long":
+		return r.garbage(65)
+	}
+	return r.garbage(64)
+}
+
 // forge builds real bytes for an attacker term. Returns nil if the term cannot be built
 // (a message it depends on does not exist in the real run).
 func (r *run) forge(t *Term) (out []byte, flat *Flat, why string, post func(id int)) {
@@ -343,7 +362,7 @@ func (r *run) forge(t *Term) (out []byte, flat *Flat, why string, post func(id i
 			}
 		default: // garbage signature under a claimed key
 			_, ts2, _ := r.adv.OwnClaim(r.now)
-			kx, ts, sig = keyBytes(t.Key), ts2, r.garbage(64)
+			kx, ts, sig = keyBytes(t.Key), ts2, r.badSig()
 		}
 		if t.Eph == "eM" {
 			b, _ := r.adv.InitHello(kx, ts, sig)
@@ -361,7 +380,7 @@ func (r *run) forge(t *Term) (out []byte, flat *Flat, why string, post func(id i
 		}
 		return nil, nil, "no InitHello with that ephemeral", nil
 	case "RH":
-		sigBytes := r.garbage(64)
+		sigBytes := r.badSig()
 		if len(t.Sig) == 2 && t.Sig[0] == 't' {
 			// key K's signature over the TIMESTAMP of one of its InitHellos (sent in the clear), used as channel-binding signature
 			sigBytes = nil
@@ -396,7 +415,7 @@ func (r *run) forge(t *Term) (out []byte, flat *Flat, why string, post func(id i
 				}
 				return attacker.InitDoneSig(c, sig), f, "", nil
 			}
-			return r.adv.InitDone(c, t.Sig == "M", r.garbage(64)), f, "", nil
+			return r.adv.InitDone(c, t.Sig == "M", r.badSig()), f, "", nil
 		case "RD":
 			return attacker.RespDone(c), f, "", nil
 		default:
